@@ -201,6 +201,10 @@ class Chipset(object):
                     time.sleep(0.001)
                 raise error
 
+        if len(frame) < 7:
+            self.log.error("insufficient data for decoding response frame")
+            raise IOError(errno.EIO, os.strerror(errno.EIO))
+
         if frame.startswith(self.SOF + b'\xFF\xFF'):
             # extended frame
             if sum(frame[5:8]) & 0xFF != 0:
